@@ -942,3 +942,84 @@ pub fn merge_end_fault_after_concurrent_delete() -> Vec<(bool, Value)> {
     match r { Ok(Ok(())) => {}, Ok(Err(e)) => v.push((false, json!({"what": "directed merge-end-fault scenario failed", "err": e.to_string(), "case": d}))), Err(p) => v.push((false, json!({"what": "directed merge-end-fault scenario panicked", "panic": p, "case": d}))) }
     v
 }
+
+
+/// The same as `merge_outlives_writer`, but the OLD writer's updater thread is parked INSIDE save_metas (at the directory
+/// sync that precedes the replace of meta.json, i.e. after it found itself alive) at the end of a merge; then writer 1 is
+/// dropped / rolled back, writer 2 commits, and the parked save is released.
+pub fn stale_save_in_flight(rollback_instead_of_drop: bool) -> Vec<(bool, Value)> {
+    use std::sync::{Arc, Condvar, Mutex};
+    let mut v = vec![];
+    let d = json!({"directed": "writer 1's updater is parked inside save_metas at the end of a merge; writer 1 is dropped / rolled back; writer 2 commits; the parked save is released", "rollback": rollback_instead_of_drop});
+    let vd = VerifDirectory::new();
+    let (schema, f) = schema();
+    let gate: Arc<(Mutex<(bool, bool, bool)>, Condvar)> = Arc::new((Mutex::new((false, false, false)), Condvar::new())); // (armed, parked, released)
+    {
+        let gate = gate.clone();
+        vd.set_hook(Some(Arc::new(move |_vd, _seq, kind, _path| {
+            if *kind != OpKind::SyncDir { return; }
+            if std::thread::current().name() != Some("segment_updater") { return; }
+            let (m, cv) = &*gate;
+            let mut g = m.lock().unwrap();
+            if !g.0 || g.1 { return; }
+            g.1 = true;
+            cv.notify_all();
+            while !g.2 { g = cv.wait(g).unwrap(); }
+        })));
+    }
+    let (tx, rx) = std::sync::mpsc::channel();
+    let (vd2, gate2, d2) = (vd.clone(), gate.clone(), d.clone());
+    std::thread::Builder::new().name("main".into()).spawn(move || {
+        let mut v = vec![];
+        let r = guarded(|| -> tantivy::Result<()> {
+            let index = Index::create(vd2.clone(), schema.clone(), IndexSettings::default())?;
+            let mut w1: IndexWriter<TantivyDocument> = index.writer_with_num_threads(1, 15_000_000)?;
+            w1.set_merge_policy(Box::new(NoMergePolicy));
+            w1.add_document(doc!(f.id => 1u64, f.tag => "t0", f.body => "a"))?;
+            w1.commit()?;
+            w1.add_document(doc!(f.id => 2u64, f.tag => "t1", f.body => "b"))?;
+            w1.commit()?;
+            let reader: tantivy::IndexReader = index.reader_builder().reload_policy(ReloadPolicy::Manual).try_into()?;
+            let ids = index.searchable_segment_ids()?;
+            gate2.0.lock().unwrap().0 = true;
+            let _merge = w1.merge(&ids);
+            { let (m, cv) = &*gate2; let g = m.lock().unwrap(); let _ = cv.wait_timeout_while(g, std::time::Duration::from_secs(20), |g| !g.1).unwrap(); }
+            let parked = gate2.0.lock().unwrap().1;
+            let mut w2 = if rollback_instead_of_drop { w1.rollback()?; w1 } else { drop(w1); index.writer_with_num_threads(1, 15_000_000)? };
+            w2.set_merge_policy(Box::new(NoMergePolicy));
+            w2.add_document(doc!(f.id => 3u64, f.tag => "t2", f.body => "c"))?;
+            w2.commit()?;
+            reader.reload()?;
+            let want: BTreeSet<u64> = [1u64, 2, 3].into_iter().collect();
+            let before = searcher_ids(&reader.searcher());
+            v.push((before.as_ref().ok() == Some(&want), json!({"what": "reader does not show writer 2's commit", "got": format!("{before:?}"), "case": d2})));
+            { let (m, cv) = &*gate2; m.lock().unwrap().2 = true; cv.notify_all(); }
+            let t0 = std::time::Instant::now();
+            let mut last = vd2.log_len();
+            while t0.elapsed() < std::time::Duration::from_secs(10) {
+                std::thread::sleep(std::time::Duration::from_millis(120));
+                let now = vd2.log_len();
+                if now == last { break; }
+                last = now;
+            }
+            reader.reload()?;
+            let after = searcher_ids(&reader.searcher());
+            v.push((after.as_ref().ok() == Some(&want), json!({"what": "a save_metas of the dead writer's updater that was in flight when the writer died overwrote writer 2's commit", "got": format!("{after:?}"), "updater_was_parked_inside_save_metas": parked, "case": d2})));
+            let fresh = Index::open(vd2.clone()).map_err(|e| tantivy::TantivyError::InternalError(format!("{e}")))?;
+            let fr = read_ids(&fresh);
+            v.push((fr.as_ref().ok() == Some(&want), json!({"what": "a freshly opened Index does not hold writer 2's commit after the dead writer's in-flight save ended", "got": format!("{fr:?}"), "updater_was_parked_inside_save_metas": parked, "case": d2})));
+            w2.wait_merging_threads()?;
+            Ok(())
+        });
+        match r { Ok(Ok(())) => {}, Ok(Err(e)) => v.push((false, json!({"what": "directed stale-save scenario failed", "err": e.to_string(), "case": d2}))), Err(p) => v.push((false, json!({"what": "directed stale-save scenario panicked", "panic": p, "case": d2}))) }
+        let _ = tx.send(v);
+    }).unwrap();
+    // dropping / rolling back the writer may legitimately WAIT for the in-flight save: release the gate after a while so that
+    // a blocking implementation proceeds (the save then completes BEFORE writer 2 exists, which is fine)
+    let res = rx.recv_timeout(std::time::Duration::from_millis(1500));
+    { let (m, cv) = &*gate; m.lock().unwrap().2 = true; cv.notify_all(); }
+    let res = match res { Ok(x) => Ok(x), Err(_) => rx.recv_timeout(std::time::Duration::from_secs(60)) };
+    vd.set_hook(None);
+    match res { Ok(x) => v.extend(x), Err(_) => v.push((false, json!({"what": "directed stale-save scenario hangs", "case": d}))) }
+    v
+}
